@@ -197,7 +197,8 @@ pub fn g4() -> Vec<FamGrammar> {
     }
     // three states with one core that conflict pairwise (a 3x3 latin square of prefixes and look-aheads): a partition of the
     // equal-core states has to be refined more than once
-    for (bi, body) in [s("c"), seq(vec![s("c"), opt(s("c"))])].into_iter().enumerate() {
+    // (bodies of two tokens: a rule that is a single string would be extracted as a token of its own)
+    for (bi, body) in [seq(vec![s("c"), s("c")]), seq(vec![s("c"), opt(s("c"))])].into_iter().enumerate() {
         let names = ["rx", "ry", "rz"];
         let prefixes = ["a", "b", "g"];
         let looks = ["d", "e", "f"];
